@@ -29,6 +29,12 @@ func main() {
 		cmdOLayer(os.Args[2:])
 	case "check":
 		os.Exit(cmdCheck(os.Args[2:]))
+	case "replay":
+		if len(os.Args) < 3 {
+			fmt.Fprintln(os.Stderr, "usage: gvc replay <replay file>")
+			os.Exit(2)
+		}
+		os.Exit(props.Replay(&props.Ctx{Repo: "/repo", VerifDir: "/verif"}, os.Args[2]))
 	default:
 		fmt.Fprintln(os.Stderr, "unknown command", os.Args[1])
 		os.Exit(2)
